@@ -7,10 +7,25 @@ import vlib
 SGB = os.path.join(vlib.ROOT, "harness", "sgb")
 
 
+_LOCK = None
+
+
+def _lock():
+    """one check at a time may use this crate (its sources are rewritten per run): hold an exclusive lock
+    until the process exits"""
+    global _LOCK
+    if _LOCK is None:
+        import fcntl
+        os.makedirs(vlib.CACHE, exist_ok=True)
+        _LOCK = open(os.path.join(vlib.CACHE, "sgb.lock"), "w")
+        fcntl.flock(_LOCK, fcntl.LOCK_EX)
+
+
 def build(units, support=""):
     """units: list of dict(name, rs, parsers [names], args (extra arguments text for parse, default '')).
     support: Rust items visible to the grammars as crate::support::*.
     -> (ok, rustc output, binary path)"""
+    _lock()
     gen = os.path.join(SGB, "src", "gen")
     shutil.rmtree(gen, ignore_errors=True)
     os.makedirs(gen)
